@@ -34,7 +34,8 @@ class Ob:
 # ---------------------------------------------------------------------------------------------
 # collectors
 # ---------------------------------------------------------------------------------------------
-def collect_T(pid, tier):
+def collect_T(pid, tier, pids=None):
+    pids = set(pids or [pid])
     r = artifacts.get_t(tier)
     obs = []
     meta = {"functions_under_contract": set(), "assumption_scan": {}, "smt_ms": 0, "modules": 0, "not_under_contract": set(),
@@ -47,7 +48,7 @@ def collect_T(pid, tier):
         if "error" in m:
             obs.append(Ob(base + "/*", "undecided", "verus", m["error"]))
             continue
-        relevant = {k: v for k, v in m["functions"].items() if pid in v["properties"]}
+        relevant = {k: v for k, v in m["functions"].items() if pids & set(v["properties"])}
         if not relevant:
             continue
         meta["modules"] += 1
@@ -201,6 +202,46 @@ def collect_G(pid, tier):
     return obs, meta
 
 
+def collect_S(pid, tier, seed):
+    r = artifacts.get_s(tier, seed)
+    obs = []
+    meta = {"cache_hit": r.get("cache_hit"), "layer_wall_s": r.get("wall_s", 0)}
+    inst = r.get("instances") or {}
+    if inst.get("build_error"):
+        obs.append(Ob("S/catalogue-build", "undecided", "rustc", inst["build_error"][-3000:]))
+        return obs, meta
+    for c in r["checks"].get(pid, []):
+        if c["ok"]:
+            st = "ok"
+        elif c.get("undecided_if_bad"):
+            st = "undecided"
+        else:
+            st = "failed"
+        modname = c["id"].split("/")[-1]
+        rp = None
+        if modname in inst.get("decls", {}):
+            rp = {"mod": modname, "decl": inst["decls"][modname], "fail": {"prop": pid, "check": c["id"], "detail": c.get("detail", "")}, "seed": seed, "tier": tier}
+        obs.append(Ob(c["id"], st, "vx-structural+rustc", c.get("detail", ""), sample=c.get("sample"), replay=rp))
+    if pid == "C10":
+        b = r.get("base_rejected") or {}
+        meta["base_cases"] = b.get("n")
+        if b.get("error"):
+            obs.append(Ob("S/base-cases", "undecided", "rustc", b["error"][-2000:]))
+        for modname, why in sorted((b.get("rejected") or {}).items()):
+            obs.append(Ob("S/base/%s" % modname, "failed", "rustc", "single-feature cell does not type-check with its automatically enabled helpers: " + why[:800]))
+        if not b.get("error") and not b.get("rejected"):
+            obs.append(Ob("S/base-cases", "ok", "rustc", sample={"cells": b.get("n"), "what": "every feature x mode x shape x 12 reprs derives and type-checks with Copy as the only bound"}))
+        meta["documented_catalogue"] = r.get("doc")
+    if pid == "C17":
+        d = r.get("determinism") or {}
+        meta["fresh_process_expansions"] = d
+        if d:
+            obs.append(Ob("S/determinism-witness", "ok" if d.get("identical") else "failed", "rustc",
+                          "" if d.get("identical") else "expansions of the same crate differ between fresh compiler processes",
+                          sample={"runs": d.get("runs"), "modules": d.get("modules"), "bounded": True}))
+    return obs, meta
+
+
 def _i_relevant(pid, prop):
     if prop == pid:
         return True
@@ -209,8 +250,13 @@ def _i_relevant(pid, prop):
     return False
 
 
-def collect_I(pid, tier, seed, include_rejected=False):
-    r = artifacts.get_i(tier, seed)
+def collect_I(pid, tier, seed, include_rejected=False, source="I", props_filter=None, mod_prefix=None, reject_filter=None):
+    if source == "I":
+        r = artifacts.get_i(tier, seed)
+    elif source == "C11":
+        r = artifacts.get_c11(tier, seed)
+    else:
+        r = artifacts.get_s(tier, seed)["instances"]
     obs = []
     meta = {"instances": 0, "evaluations": 0, "samples": [], "cache_hit": r.get("cache_hit"), "rejected": sorted(r.get("rejected", {})),
             "layer_wall_s": r.get("wall_s", 0)}
@@ -220,6 +266,8 @@ def collect_I(pid, tier, seed, include_rejected=False):
     if r.get("run_error"):
         obs.append(Ob("I/run", "undecided", "native", r["run_error"]))
     for modname, m in sorted(r["modules"].items()):
+        if mod_prefix and not modname.startswith(tuple(mod_prefix)):
+            continue
         if modname in r.get("rejected", {}):
             continue
         if not m.get("done"):
@@ -227,8 +275,10 @@ def collect_I(pid, tier, seed, include_rejected=False):
             continue
         meta["instances"] += 1
         meta["evaluations"] += m["evals"]
-        fails = [f for f in m["fails"] if _i_relevant(pid, f["prop"])]
+        fails = [f for f in m["fails"] if (props_filter is None and _i_relevant(pid, f["prop"])) or (props_filter == "any")]
         desc = r.get("specs", {}).get(modname)
+        if props_filter == "none":
+            continue
         if fails:
             f = fails[0]
             obs.append(Ob("I/%s" % modname, "failed", "rustc+native", "%s %s: %s" % (f["prop"], f["check"], f["detail"]),
@@ -239,6 +289,10 @@ def collect_I(pid, tier, seed, include_rejected=False):
             meta["samples"].append(desc)
     if include_rejected:
         for modname, why in sorted(r.get("rejected", {}).items()):
+            if mod_prefix and not modname.startswith(tuple(mod_prefix)):
+                continue
+            if reject_filter and not re.search(reject_filter, why):
+                continue
             obs.append(Ob("I/compile/%s" % modname, "failed", "rustc", "corpus enum in the documented domain does not compile:\n" + why,
                           sample=r.get("specs", {}).get(modname),
                           replay={"mod": modname, "decl": r.get("decls", {}).get(modname), "fail": {"prop": pid, "check": "compile", "detail": why}, "seed": seed, "tier": tier}))
@@ -378,6 +432,9 @@ def finish(pid, tier, seed, level, obs, metas, violations, undecided, known_hits
             break
     for (k, o) in known_hits:
         print("KNOWN-FINDING: property=%s %s (%s)" % (pid, k.get("what", k.get("id", "")), o.id))
+    # obligations that fail on a recorded known finding are reported separately, not counted
+    known_ids = {o.id for (_k, o) in known_hits}
+    obs = [o for o in obs if o.id not in known_ids]
     discharged = sum(1 for o in obs if o.status == "ok")
     by_backend = {}
     for o in obs:
